@@ -173,6 +173,9 @@ def r2(rep, prog, tab):
             found = True
         rep.check(found, "C09-R2", sd.def_, "feeds:%s->%s%s" % (accname, w["helper"], ("(" + w["arg"] + ")") if w.get("arg") else ""),
                   "shutdown_connection does not pass the elements of conn.%s() to %s" % (accname, w["helper"]), line=sd.span, detail=w)
+    # ... on EVERY path after the state was removed (no early return may skip a cleanup loop)
+    for a, ok in sorted(broker.teardown_must_pass(sd, sorted(want)).items()):
+        rep.check(ok, "C09-R2", sd.def_, "always-visits:%s" % a, "once the connection was taken out of self.conns every path of shutdown_connection must go through the cleanup of conn.%s(); an early return leaves what the connection owned behind for ever" % a, line=sd.span, detail={})
     # unconditional helpers
     for h in tab["teardown_calls"]:
         cs_ = [c for c in sd.calls if c.name == h]
